@@ -26,6 +26,7 @@ import (
 	"io"
 	"os"
 	"os/exec"
+	"path/filepath"
 	"runtime"
 	"sort"
 	"strconv"
@@ -204,7 +205,14 @@ func isoExec(st *isoDoc, op Op) (string, string) {
 			}
 			t.SetCellText(0, 0, tok)
 		case "AddImage":
-			if _, err := d.AddImageFromData(tinyPNG(isoTokInt(tok)), tok+".png", document.ImageFormatPNG, 2, 2, nil); err != nil {
+			// picture classes by token: inline without configuration / floating with wrapping and an offset (another code path:
+			// anchors carry ids and stacking values of their own)
+			var cfg *document.ImageConfig
+			if isoTokInt(tok)%2 == 1 {
+				cfg = &document.ImageConfig{Position: document.ImagePositionFloatLeft, WrapText: document.ImageWrapSquare, OffsetX: 3,
+					AltText: "alt " + tok, Title: "title " + tok}
+			}
+			if _, err := d.AddImageFromData(tinyPNG(isoTokInt(tok)), tok+".png", document.ImageFormatPNG, 2, 2, cfg); err != nil {
 				return "err"
 			}
 		case "AddHeader":
@@ -263,7 +271,15 @@ func isoExec(st *isoDoc, op Op) (string, string) {
 			}
 			st.setSaved(b)
 		case "Save":
-			fn := fmt.Sprintf("iso-%d-%s-%d.docx", os.Getpid(), st.name, isoGoid())
+			// the documents of a behaviour are saved side by side in one directory under names that differ in a short
+			// prefix only (d1_iso_report.docx, d2_iso_report.docx): whatever Save derives from the target name or
+			// directory (temporary / backup / lock files) is then shared unless it is derived injectively
+			dir := filepath.Join(os.TempDir(), fmt.Sprintf("wzh-iso-%d", os.Getpid()))
+			if err := os.MkdirAll(dir, 0o755); err != nil {
+				fmt.Fprintln(os.Stderr, "iso: cannot create", dir, err)
+				os.Exit(2)
+			}
+			fn := filepath.Join(dir, st.name+"_iso_report.docx")
 			defer os.Remove(fn)
 			if err := d.Save(fn); err != nil {
 				return "err"
